@@ -26,6 +26,8 @@ PO(id, m, p, pre, sel, dumpf, late) == O(id, m, p, "-", "-", << >>, "none", << >
 NP(id, m, p, pre, ser) == O(id, m, p, "-", "-", << >>, "none", << >>, pre, "none", "none", "ok", ser)
 
 QuickOps == {
+  [PA("A:a/ok|nodef", "A", NoDefKW, << >>, "a", <<"ok">>) EXCEPT !.late = "fail"],     \* no --x: the link finds no source,
+  PA("A:clshelp",         "A", DefKW, <<"clshelp">>, "none", << >>),
   PA("A:[]",              "A", DefKW, << >>, "none", << >>),
   PA("A:ok",              "A", DefKW, <<"ok">>, "none", << >>),
   PA("A:bad",             "A", DefKW, <<"bad">>, "none", << >>),
@@ -61,12 +63,10 @@ MoreOps == {
   PA("A:pcflag",          "A", DefKW, <<"pcflag">>, "none", << >>),
   PA("A:pc,cfg",          "A", DefKW, <<"pc", "cfg">>, "none", << >>),
   PA("A:cfgbad",          "A", DefKW, <<"cfgbad">>, "none", << >>),
-  PA("A:clshelp",         "A", DefKW, <<"clshelp">>, "none", << >>),
   PA("A:pc/a/ok",         "A", DefKW, <<"pc">>, "a", <<"ok">>),
   PA("A:ok/a/unk",        "A", DefKW, <<"ok">>, "a", <<"unk">>),
   PA("A:a/pc,help",       "A", DefKW, << >>, "a", <<"pc", "help">>),
   PA("A:b/bad",           "A", DefKW, << >>, "b", <<"bad">>),
-  [PA("A:a/ok|nodef", "A", NoDefKW, << >>, "a", <<"ok">>) EXCEPT !.late = "fail"],     \* no --x: the link finds no source
   [PA("A:ok|late", "A", DefKW, <<"ok">>, "none", << >>) EXCEPT !.late = "fail"],
   [PA("A:envbad", "A", "env=True,defaults=True", << >>, "none", << >>) EXCEPT !.pre = "fail"],
   PO("A:obj-b",           "parse_object", "A", "ok", "b", "none", "ok"),
